@@ -517,3 +517,54 @@ async def canary_a_gathered_coroutine_changes_the_callers_context(a, b):
         return x
     await asyncio.gather(child(b))
     return _cv.get() == b
+
+
+# --- classes: methods, inheritance, super(), properties, static methods, mutation through self ---------------------------------
+class _Base:
+    kind = "base"
+
+    def __init__(self, x):
+        self.x = x
+        self.log = []
+
+    def double(self):
+        return 2 * self.x
+
+    @staticmethod
+    def three():
+        return 3
+
+    @property
+    def plus_one(self):
+        return self.x + 1
+
+    def bump(self):
+        self.x = self.x + 1
+        self.log.append(self.x)
+        return self
+
+
+class _Derived(_Base):
+    def __init__(self, x, y):
+        super().__init__(x)
+        self.y = y
+
+    def double(self):
+        return super().double() + self.y
+
+
+@lemma(dict(a=Int(-3, 3), b=Int(-3, 3)), prop=["ENGINE"])
+def classes_methods_inheritance_and_properties(a, b):
+    d = _Derived(a, b)
+    base = _Base(a)
+    ok = d.double() == 2 * a + b and base.double() == 2 * a and d.plus_one == a + 1 and _Base.three() == 3 \
+        and isinstance(d, _Base) and not isinstance(base, _Derived) and d.kind == "base"
+    d.bump().bump()
+    return ok and d.x == a + 2 and d.log == [a + 1, a + 2] and base.x == a and d.double() == 2 * (a + 2) + b
+
+
+@lemma(dict(a=Int(-3, 3)), prop=["ENGINE"], canary=True)
+def canary_methods_work_on_a_copy_of_self(a):
+    o = _Base(a)
+    o.bump()
+    return o.x == a
